@@ -361,6 +361,10 @@ OBLIGATIONS.append(M("C17", "c17_asm_tokens", {"q": "asm_roundtrip"}, ["Script::
                      "thirteen minimally-pushed structured scripts (opcodes; direct pushes of 1, 2, 3, 75 bytes; PUSHDATA1 of 76 and 255; PUSHDATA2 of 256; IF/ELSE, NOTIF without ELSE, empty branches, two-level nesting; OP_0; the empty script) with ALL payload bytes symbolic - so every one- and two-byte payload whose hex text is all digits is covered", cost=1,
                      stubs=("E2 text models: <OpCodes as ToString>::to_string / <i32 as ToString>::to_string -> literal tokens; hex::encode / hex::decode -> inverse token constructors; [String]::join(\" \") / str::split(' ') / str::trim / String::is_empty / <str as PartialEq>::eq on tokens; <OpCodes as FromStr>::from_str by variant name; collect::<Result<Vec<_>, _>>",)))
 
+OBLIGATIONS.append(M("C07", "c07_address_string", {"q": "address_string"}, ["P2PKHAddress::to_string_impl", "P2PKHAddress::from_string_impl"],
+                     "all 256 prefixes x all 20-byte hashes (incl. every count of leading zero bytes): from_string(to_string(a)) = a", cost=1,
+                     stubs=("E2: Base58 is an injective constructor (decode inverts encode); the length of a Base58 string is an uninterpreted function of the payload constrained by the exact digit-count bounds for each number of leading zero bytes",)))
+
 
 def for_property(pid):
     return [dict(o) for o in OBLIGATIONS if o["property"] == pid]
